@@ -406,3 +406,216 @@ pub fn run_conc(tokens: &[&str]) -> String {
     let extra = fa.len() as i64 - out.len() as i64;
     format!("{} ; factory_extra={}", parts.join(" | "), extra)
 }
+
+// ---------------------------------------------------------------------------------------------
+// Serial RTU server (`server::rtu::Server`) over a pseudo-terminal.
+//
+// SERSRV <chunks: dHEX,dHEX,..> <service table> <ncalls> <nbytes> <w|e> [abort]
+//   The chunks are written to the master side one after the other; the server runs on the slave side
+//   with a table service.  The harness waits (event driven, bounded by the watchdog) until the server
+//   future has ended, or -- when the caller expects the server to keep waiting (`w`) -- until at least
+//   <ncalls> service invocations and <nbytes> reply bytes have been seen, then a short grace period for
+//   surplus output.  With `abort` the abort signal of `serve_until` is fired afterwards.
+//   output: `<calls ','-joined>|<all reply bytes hex>|WAIT or FINISHED or ABORTED or E:<kind>`
+//
+// SERE2E <slave> <op> ; <op> ...    op = call|typed <request> <service reply>
+//   real asynchronous RTU client on one end of a pty, real serial RTU server on the other.
+//   output per op: `<client result> seen=<C:slave:request the service saw for it, '+'-joined>`
+// ---------------------------------------------------------------------------------------------
+struct SerService {
+    table: Vec<crate::SvcReply>,
+    idx: std::sync::atomic::AtomicUsize,
+    calls: Arc<Mutex<Vec<String>>>,
+    notify: Arc<tokio::sync::Notify>,
+}
+
+impl tokio_modbus::server::Service for SerService {
+    type Request = tokio_modbus::SlaveRequest<'static>;
+    type Response = Option<Response>;
+    type Exception = tokio_modbus::ExceptionCode;
+    type Future = std::future::Ready<Result<Option<Response>, tokio_modbus::ExceptionCode>>;
+    fn call(&self, req: Self::Request) -> Self::Future {
+        let i = self.idx.fetch_add(1, std::sync::atomic::Ordering::SeqCst);
+        self.calls.lock().unwrap().push(format!("C:{}:{}", req.slave, show_req(&req.request)));
+        self.notify.notify_one();
+        std::future::ready(match self.table.get(i) {
+            None | Some(crate::SvcReply::Decline) => Ok(None),
+            Some(crate::SvcReply::Reply(r)) => Ok(Some(r.clone())),
+            Some(crate::SvcReply::Exc(c)) => Err(*c),
+        })
+    }
+}
+
+pub fn run_sersrv(tokens: &[&str]) -> String {
+    let (chunks, sv, ncalls, nbytes, end, abort) = match tokens {
+        [c, s, a, b, e] => (c, s, a, b, e, false),
+        [c, s, a, b, e, x] if *x == "abort" => (c, s, a, b, e, true),
+        _ => return "ERR sersrv".into(),
+    };
+    let Some(table) = crate::parse_svc(sv) else {
+        return "ERR sersrvsvc".into();
+    };
+    let mut parts: Vec<Vec<u8>> = vec![];
+    if *chunks != "-" {
+        for c in chunks.split(',') {
+            match c.strip_prefix('d').and_then(unhex) {
+                Some(v) if !v.is_empty() => parts.push(v),
+                _ => return "ERR sersrvchunks".into(),
+            }
+        }
+    }
+    let (Ok(ncalls), Ok(nbytes)) = (ncalls.parse::<usize>(), nbytes.parse::<usize>()) else {
+        return "ERR sersrvn".into();
+    };
+    let expect_end = *end == "e";
+    let rt = tokio::runtime::Builder::new_current_thread().enable_all().build().unwrap();
+    let calls: Arc<Mutex<Vec<String>>> = Arc::new(Mutex::new(vec![]));
+    let notify = Arc::new(tokio::sync::Notify::new());
+    let out = rt.block_on(async {
+        let Ok((mut master, slave)) = tokio_serial::SerialStream::pair() else {
+            return "ERR pty".to_string();
+        };
+        let svc = SerService { table, idx: Default::default(), calls: calls.clone(), notify: notify.clone() };
+        let server = tokio_modbus::server::rtu::Server::new(slave);
+        let (tx, rx) = tokio::sync::oneshot::channel::<()>();
+        let abort_signal = Box::pin(async move {
+            let _ = rx.await;
+        });
+        let n2 = notify.clone();
+        let mut task = tokio::spawn(async move {
+            let r = server.serve_until(svc, abort_signal).await;
+            n2.notify_one();
+            r
+        });
+        let got: Arc<Mutex<Vec<u8>>> = Arc::new(Mutex::new(vec![]));
+        let mut ended: Option<String> = None;
+        let show_end = |r: Result<io::Result<tokio_modbus::server::Terminated>, tokio::task::JoinError>| match r {
+            Ok(Ok(tokio_modbus::server::Terminated::Finished)) => "FINISHED".to_string(),
+            Ok(Ok(tokio_modbus::server::Terminated::Aborted)) => "ABORTED".to_string(),
+            Ok(Err(e)) => format!("E:{}", show_kind(e.kind())),
+            Err(e) if e.is_panic() => "PANIC".to_string(),
+            Err(_) => "CANCELLED".to_string(),
+        };
+        let deadline = tokio::time::Instant::now() + crate::watchdog();
+        let mut tmp = [0u8; 1024];
+        let mut to_write: std::collections::VecDeque<Vec<u8>> = parts.into();
+        let mut grace: Option<tokio::time::Instant> = None;
+        loop {
+            // feed the next chunk (the pty buffers it; the server reads whatever fragmentation results)
+            if let Some(c) = to_write.pop_front() {
+                if master.write_all(&c).await.is_err() {
+                    break;
+                }
+                let _ = master.flush().await;
+                tokio::task::yield_now().await;
+            }
+            let satisfied = to_write.is_empty() && !expect_end && calls.lock().unwrap().len() >= ncalls && got.lock().unwrap().len() >= nbytes;
+            if satisfied && grace.is_none() {
+                grace = Some(tokio::time::Instant::now() + Duration::from_millis(if nbytes == 0 && ncalls == 0 { 60 } else { 25 }));
+            }
+            let until = grace.unwrap_or(deadline).min(deadline);
+            if tokio::time::Instant::now() >= until {
+                break;
+            }
+            let more_to_write = !to_write.is_empty();
+            tokio::select! {
+                r = &mut task, if ended.is_none() => { ended = Some(show_end(r)); }
+                r = master.read(&mut tmp) => match r {
+                    Ok(0) | Err(_) => { if ended.is_some() { break; } tokio::time::sleep(Duration::from_millis(1)).await; }
+                    Ok(n) => got.lock().unwrap().extend_from_slice(&tmp[..n]),
+                },
+                _ = notify.notified() => {}
+                _ = tokio::time::sleep_until(until) => {}
+                _ = std::future::ready(()), if more_to_write => {}
+            }
+            if ended.is_some() && to_write.is_empty() {
+                // drain what the server wrote before it ended
+                while let Ok(Ok(n)) = tokio::time::timeout(Duration::from_millis(20), master.read(&mut tmp)).await {
+                    if n == 0 {
+                        break;
+                    }
+                    got.lock().unwrap().extend_from_slice(&tmp[..n]);
+                }
+                break;
+            }
+        }
+        let mut end = ended.unwrap_or_else(|| "WAIT".to_string());
+        if end == "WAIT" && abort {
+            let _ = tx.send(());
+            end = match tokio::time::timeout(crate::watchdog(), &mut task).await {
+                Ok(r) => show_end(r),
+                Err(_) => "HUNG".to_string(),
+            };
+        } else if end == "WAIT" {
+            task.abort();
+        }
+        if end == "WAIT" && expect_end {
+            end = "HUNG".to_string();
+        }
+        let c = calls.lock().unwrap().join(",");
+        let g = hex(&got.lock().unwrap());
+        format!("{}|{}|{}", if c.is_empty() { "-".to_string() } else { c }, if g.is_empty() { "-".to_string() } else { g }, end)
+    });
+    drop(rt);
+    out
+}
+
+pub fn run_sere2e(tokens: &[&str]) -> String {
+    if tokens.len() < 4 {
+        return "ERR sere2e".into();
+    }
+    let Ok(slave) = tokens[0].parse::<u8>() else {
+        return "ERR slave".into();
+    };
+    let mut ops: Vec<(Request<'static>, bool)> = vec![];
+    let mut table: Vec<crate::SvcReply> = vec![];
+    for op in tokens[1..].split(|t| *t == ";") {
+        match op {
+            [h @ ("call" | "typed"), rq, sv] => {
+                let (Some(r), Some(mut s)) = (parse_req(rq), crate::parse_svc(sv)) else {
+                    return "ERR sere2eop".into();
+                };
+                if s.len() != 1 {
+                    return "ERR sere2esvc".into();
+                }
+                ops.push((r, *h == "typed"));
+                table.push(s.remove(0));
+            }
+            _ => return "ERR sere2eop".into(),
+        }
+    }
+    let rt = tokio::runtime::Builder::new_current_thread().enable_all().build().unwrap();
+    let calls: Arc<Mutex<Vec<String>>> = Arc::new(Mutex::new(vec![]));
+    let notify = Arc::new(tokio::sync::Notify::new());
+    let out = rt.block_on(async {
+        let Ok((master, slave_end)) = tokio_serial::SerialStream::pair() else {
+            return "ERR pty".to_string();
+        };
+        let svc = SerService { table, idx: Default::default(), calls: calls.clone(), notify: notify.clone() };
+        let server = tokio_modbus::server::rtu::Server::new(slave_end);
+        let task = tokio::spawn(async move { server.serve_forever(svc).await });
+        let mut ctx = tokio_modbus::client::rtu::attach_slave(master, Slave(slave));
+        let mut outs = vec![];
+        let mut seen = 0usize;
+        for (req, typed) in &ops {
+            let fut = async {
+                if *typed {
+                    typed_dispatch!(ctx, req, .await)
+                } else {
+                    show_call(&ctx.call(req.clone()).await)
+                }
+            };
+            let res = match tokio::time::timeout(crate::watchdog(), fut).await {
+                Ok(r) => r,
+                Err(_) => "HUNG".to_string(),
+            };
+            let cs = calls.lock().unwrap();
+            outs.push(format!("{res} seen={}", if cs.len() > seen { cs[seen..].join("+") } else { "-".to_string() }));
+            seen = cs.len();
+        }
+        task.abort();
+        outs.join(" ; ")
+    });
+    drop(rt);
+    out
+}
